@@ -280,6 +280,43 @@ type HeaderOpts struct {
 	AlgSpell     bool   // spell alg value as cose.Algorithm sometimes
 	NoRegistered bool
 	NoCty        bool // never generate content type (label 3): hash envelopes forbid it
+	PadBoundary  bool // sometimes pad the protected map so that its deterministic encoding has exactly 23/24/255/256/65535/65536 bytes
+	PadHuge      bool // allow the 65535/65536 targets
+}
+
+// PadMapTo adds a "pad…" text-labelled byte string to map m so that its
+// deterministic encoding has exactly target bytes; ok=false if unreachable.
+func PadMapTo(m rc.Val, target int) (rc.Val, bool) {
+	for _, label := range []string{"pad", "padd", "paddd", "padddd"} {
+		dup := false
+		for _, e := range m.M {
+			if e.K.K == rc.KText && string(e.K.B) == label {
+				dup = true
+			}
+		}
+		if dup {
+			continue
+		}
+		base := len(rc.Encode(m.With(rc.Text(label), rc.Bytes(nil)), nil))
+		for delta := 0; delta <= 8; delta++ {
+			n := target - base - delta
+			if n < 0 {
+				break
+			}
+			c := m.With(rc.Text(label), rc.Bytes(make([]byte, n)))
+			if len(rc.Encode(c, nil)) == target {
+				return c, true
+			}
+		}
+	}
+	return m, false
+}
+
+func padTarget(t *rapid.T, huge bool) int {
+	if huge && rapid.IntRange(0, 5).Draw(t, "pad-huge") == 0 {
+		return rapid.SampledFrom([]int{65535, 65536}).Draw(t, "pad-target-huge")
+	}
+	return rapid.SampledFrom([]int{23, 24, 255, 255, 256}).Draw(t, "pad-target")
 }
 
 // MediaType draws a conforming type/subtype string.
@@ -397,6 +434,12 @@ func Headers(t *rapid.T, o HeaderOpts) (prot, unprot rc.Val) {
 		m, tk := bucket("x5")
 		l := rapid.SampledFrom([]int64{32, 33, 34, 35}).Draw(t, "x5label")
 		add(m, tk, lab(l), Value(t, uo))
+	}
+	if o.PadBoundary && rapid.IntRange(0, 5).Draw(t, "pad-protected") == 0 {
+		if p, ok := PadMapTo(prot, padTarget(t, o.PadHuge)); ok {
+			prot = p
+			takenP[string(rc.Encode(prot.M[len(prot.M)-1].K, nil))] = true
+		}
 	}
 	if pick("crit") && len(prot.M) > 0 {
 		// crit lists a non-empty subset of the labels present in protected
